@@ -15,7 +15,7 @@ let load_tables path =
     let n = String.length l in
     if n > 5 && String.sub l 0 5 = "CASE " then (flush (); cur := String.sub l 5 (n - 5); sts := []; rows := []; ok := false)
     else if l = "GEN ok" then ok := true
-    else if n > 1 && (l.[0] = 'S' || l.[0] = 'R') && (match String.index_opt l ':' with Some i -> i > 1 && (try ignore (int_of_string (String.sub l 1 (i - 1))); true with _ -> false) | None -> false) && not (n > 6 && String.sub l 0 6 = "STATES") then begin
+    else (try if n > 1 && (l.[0] = 'S' || l.[0] = 'R') && (match String.index_opt l ':' with Some i -> i > 1 && (try ignore (int_of_string (String.sub l 1 (i - 1))); true with _ -> false) | None -> false) && not (n > 6 && String.sub l 0 6 = "STATES") then begin
       let i = String.index l ':' in
       let body = String.sub l (i + 1) (n - i - 1) in
       let toks = List.filter (fun x -> x <> "") (String.split_on_char ' ' body) in
@@ -29,7 +29,7 @@ let load_tables path =
                      { e_kind = (match int_of_string k with 0 -> KError | 1 -> KSuccess | 2 -> KShift | 3 -> KShiftErr | 4 -> KReduce | _ -> KRR);
                        e_arg = (if a < 0 then None else Some (nat_of_int a)); e_sr = (f = "1") }
                  | _ -> failwith "bad entry") toks :: !rows
-    end
+    end with Failure _ | Invalid_argument _ -> ok := false)      (* a garbled dump: the case counts as not generated *)
   done with End_of_file -> flush ()); close_in ic
 
 let () =
